@@ -12,7 +12,7 @@ CASE_T = "C20.Corr.case"
 PROPS = ["C20/Props.v"]
 CLAUSE = {1: "mutual-differs", 2: "one-way-target-differs", 3: "delta-lost", 4: "inert-violated",
           5: "outcome", 6: "logged-exception", 7: "doubled-notification", 8: "origin-value"}
-SCALARS, LISTS = (0, 1), (2, 3)
+SCALARS, LISTS, ANY = (0, 1), (2, 3), 4
 
 
 # ---------------------------------------------------------------- terms
@@ -207,6 +207,7 @@ def gen_case(rnd, ctx, maxlen, allow_cyclic):
     lens = {(o, n): len(init[o][n]) for o in range(nobj) for n in LISTS}   # guesses only
     kind = rnd.choice(["list", "list", "scalar", "both"])
     ops = []
+    pending = None
 
     def names():
         k = kind if kind != "both" else rnd.choice(["list", "scalar"])
@@ -224,7 +225,30 @@ def gen_case(rnd, ctx, maxlen, allow_cyclic):
         r = rnd.random()
         if len(alive) < 1:
             break
-        if (i == 0 and r < 0.85) or r < 0.17:
+        if pending is not None:
+            # a second, ordinary partner of a source that already has a rejecting / Any partner
+            o, n = pending
+            pending = None
+            p = rnd.choice([q for q in alive if q != o] or alive)
+            op = ["Sync", o, n, p, n, rnd.random() < 0.4]
+            if not allow_cyclic and topology(edges_after(E, op), (o, n)) != "tree":
+                continue
+        elif r < 0.04 and len(alive) > 1:
+            # an odd partner, one-way: the unobserved Any trait (takes everything) or a trait of the other kind
+            # (a narrower type: rejects every value of the source; sync_trait itself raises TraitError)
+            o = rnd.choice(alive)
+            p = rnd.choice([q for q in alive if q != o])
+            n = rnd.choice(SCALARS + LISTS)
+            if rnd.random() < 0.5:
+                m = ANY
+                ctx.count("link:one-way:to-Any")
+            else:
+                m = rnd.choice(LISTS if n in SCALARS else SCALARS)
+                ctx.count("link:one-way:rejecting-partner")
+            op = ["Sync", o, n, p, m, False]
+            if rnd.random() < 0.75:
+                pending = (o, n)
+        elif (i == 0 and r < 0.85) or r < 0.17:
             for _ in range(8):
                 o, n, p, m = pick_link()
                 op = ["Sync", o, n, p, m, rnd.random() < 0.65]
@@ -242,7 +266,7 @@ def gen_case(rnd, ctx, maxlen, allow_cyclic):
             op = ["Collect", rnd.choice(alive)]
         else:
             # operate preferably on a linked trait
-            linked = [x for e in E for x in e if x[0] in alive]
+            linked = [x for e in E for x in e if x[0] in alive and x[1] != ANY]
             if linked and rnd.random() < 0.85:
                 o, n = rnd.choice(linked)
             else:
@@ -266,8 +290,9 @@ def gen_case(rnd, ctx, maxlen, allow_cyclic):
         if op[0] == "Collect":
             alive.remove(op[1])
         if op[0] == "Sync":
-            ctx.count("link:" + ("mutual" if op[5] else "one-way") + (":alias" if op[2] != op[4] else "")
-                      + (":self" if op[1] == op[3] else ""))
+            if op[4] != ANY and (op[2] in SCALARS) == (op[4] in SCALARS):
+                ctx.count("link:" + ("mutual" if op[5] else "one-way") + (":alias" if op[2] != op[4] else "")
+                          + (":self" if op[1] == op[3] else ""))
             for (a, b) in [((op[1], op[2]), (op[3], op[4]))]:
                 if a in lens and b in lens:
                     lens[b] = lens[a]
@@ -304,6 +329,14 @@ def corpus():
     cs.append(dict(init=base, ops=[["Sync", 0, 2, 1, 3, True], ["Sync", 0, 2, 2, 2, True], ["Mut", 1, 3, ["Append", 5]],
                                    ["Mut", 2, 2, ["Imul", 2]], ["Sync", 1, 0, 1, 1, True], ["Assign", 1, 0, 8],
                                    ["Assign", 1, 1, 3]]))
+    # a partner that rejects the value (list trait offered an int and vice versa) must not stop the others
+    cs.append(dict(init=base, ops=[["Sync", 0, 0, 1, 2, False], ["Sync", 0, 0, 2, 0, False], ["Assign", 0, 0, 5],
+                                   ["Sync", 0, 2, 2, 1, False], ["Sync", 0, 2, 1, 3, True], ["Assign", 0, 2, [4, 4]],
+                                   ["Mut", 0, 2, ["Append", 6]], ["Mut", 1, 3, ["Pop", None]]]))
+    # a List trait linked to a non-list (Any) partner: only whole values are forwarded, items are not
+    cs.append(dict(init=base, ops=[["Sync", 0, 2, 1, 4, False], ["Mut", 0, 2, ["Append", 7]], ["Mut", 0, 2, ["SetI", 0, 9]],
+                                   ["Assign", 0, 2, [1]], ["Mut", 0, 2, ["Extend", [2, 3]]], ["Sync", 0, 0, 1, 4, False],
+                                   ["Assign", 0, 0, 8], ["Unsync", 0, 2, 1, 4, True], ["Mut", 0, 2, ["Pop", None]]]))
     # new finding: a trait reachable along two link paths receives the delta twice
     cs.append(dict(init=base, ops=[["Sync", 0, 2, 1, 2, True], ["Sync", 0, 2, 2, 2, True], ["Sync", 1, 2, 2, 2, True],
                                    ["Mut", 0, 2, ["Append", 5]], ["Assign", 0, 2, [7]], ["Mut", 2, 2, ["Pop", None]]]))
@@ -323,7 +356,8 @@ def run(ctx):
         "weakref callback timing (CPython reference counting + gc.collect)",
     ]
     ctx.cov["rule"] = ("random histories over a pool of 2-3 objects with two Int and two List(Int) traits each: "
-                       "sync_trait (mutual / one-way, alias, self link, star / chain / cyclic link graphs), removal "
+                       "sync_trait (mutual / one-way, alias, self link, star / chain / cyclic link graphs, partners of a narrower type that "
+                       "reject the value, an unobserved Any partner), removal "
                        "(both or one direction, of absent links too), gc of a partner, assignments and all 14 TraitList "
                        "mutators incl. extended and negative-step slices on either side; a case is non-trivial if some "
                        "step propagated to another trait, raised, removed a link or collected an object; distinct = "
